@@ -138,6 +138,10 @@ fn applicable_edits(r: &RefOnt) -> Vec<Edit> {
             v.push(Edit::AddRecord(*kind, new_id, Some(ids[ids.len() - 1])));
             v.push(Edit::AddRecord(*kind, new_id, None));
         }
+        // a new record whose id lies BELOW every id of its kind (4242 is above every gene id but below the OMIM ids)
+        if !r.recs[k].contains_key(&1) {
+            v.push(Edit::AddRecord(*kind, 1, Some(ids[ids.len() - 1])));
+        }
     }
     v
 }
@@ -223,7 +227,7 @@ fn build_descending(r: &RefOnt) -> Result<Ontology, String> {
     f.terms.reverse();
     f.edges.reverse();
     f.anns.reverse();
-    match drive::from_bytes(&encode::encode(&f, &EncOpts::v(3))) {
+    match drive::from_bytes(&encode::encode(&f, &EncOpts::list_order(3))) {
         Ok(Ok(o)) => Ok(o),
         Ok(Err(e)) => Err(e),
         Err(p) => Err(format!("panic: {p}")),
@@ -258,11 +262,14 @@ fn term_delta(d: &HpoTermDelta) -> (u32, (Option<(String, String)>, Vec<u32>, Ve
     )
 }
 
-fn rec_delta(d: &AnnotationDelta) -> (String, (Option<(String, String)>, Vec<u32>, Vec<u32>, (usize, usize))) {
-    // the numeric id of the record, whatever prefix the textual id carries (its format is not part of the property)
+fn rec_delta(d: &AnnotationDelta, in_both: &dyn Fn(u32) -> bool) -> (String, (Option<(String, String)>, Vec<u32>, Vec<u32>, (usize, usize))) {
+    // the numeric id of the record, however the textual id is rendered (its format is not part of the property:
+    // "600001", "OMIM:600001", "600001 (OMIM)" ...): the first run of digits that is the id of a record of this kind
+    // present in both ontologies - a changed record is one - else the last run
     let text = d.id().to_string();
-    let digits: String = text.chars().rev().take_while(|c| c.is_ascii_digit()).collect::<String>().chars().rev().collect();
-    (digits, (d.changed_name().cloned(), sorted(d.added_terms()), sorted(d.removed_terms()), d.n_terms()))
+    let runs: Vec<&str> = text.split(|c: char| !c.is_ascii_digit()).filter(|r| !r.is_empty()).collect();
+    let id = runs.iter().filter_map(|r| r.parse::<u32>().ok()).find(|n| in_both(*n)).map(|n| n.to_string()).unwrap_or_else(|| runs.last().map(|r| r.trim_start_matches('0').to_string()).unwrap_or_default());
+    (id, (d.changed_name().cloned(), sorted(d.added_terms()), sorted(d.removed_terms()), d.n_terms()))
 }
 
 fn observe(a: &Ontology, b: &Ontology) -> Report {
@@ -273,13 +280,13 @@ fn observe(a: &Ontology, b: &Ontology) -> Report {
     r.changed_terms = c.changed_hpo_terms().iter().map(term_delta).collect();
     r.added_recs[0] = c.added_genes().iter().map(|g| g.id().as_u32()).collect();
     r.removed_recs[0] = c.removed_genes().iter().map(|g| g.id().as_u32()).collect();
-    r.changed_recs[0] = c.changed_genes().iter().map(rec_delta).collect();
+    r.changed_recs[0] = c.changed_genes().iter().map(|d| rec_delta(d, &|id| a.gene(&id.into()).is_some() && b.gene(&id.into()).is_some())).collect();
     r.added_recs[1] = c.added_omim_diseases().iter().map(|g| g.id().as_u32()).collect();
     r.removed_recs[1] = c.removed_omim_diseases().iter().map(|g| g.id().as_u32()).collect();
-    r.changed_recs[1] = c.changed_omim_diseases().iter().map(rec_delta).collect();
+    r.changed_recs[1] = c.changed_omim_diseases().iter().map(|d| rec_delta(d, &|id| a.omim_disease(&id.into()).is_some() && b.omim_disease(&id.into()).is_some())).collect();
     r.added_recs[2] = c.added_orpha_diseases().iter().map(|g| g.id().as_u32()).collect();
     r.removed_recs[2] = c.removed_orpha_diseases().iter().map(|g| g.id().as_u32()).collect();
-    r.changed_recs[2] = c.changed_orpha_diseases().iter().map(rec_delta).collect();
+    r.changed_recs[2] = c.changed_orpha_diseases().iter().map(|d| rec_delta(d, &|id| a.orpha_disease(&id.into()).is_some() && b.orpha_disease(&id.into()).is_some())).collect();
     // the lists themselves must not contain an entry twice ("exactly the terms ...")
     let listed = [
         c.added_hpo_terms().len(), c.removed_hpo_terms().len(), c.changed_hpo_terms().len(),
@@ -436,10 +443,10 @@ fn bases() -> Vec<(RefOnt, &'static str)> {
     // 8. long names: disease names are not limited by the binary format (gene symbols and term names are, at 255
     // bytes - they stay just below it here, so that a rename keeps them legal), so every comparison after a round trip must stay empty
     let mut f = Facts { version: (2024, 2, 29), ..Default::default() };
-    f.terms = vec![t(1, "All"), t(118, "Phenotypic abnormality"), t(200, &"n".repeat(230))];
+    f.terms = vec![t(1, "All"), t(118, "Phenotypic abnormality"), t(200, &"n".repeat(215))];
     f.edges = vec![(118, 1), (200, 118)];
     f.anns = vec![
-        Facts::ann(Kind::Gene, 11, &"G".repeat(230), Some(200)),
+        Facts::ann(Kind::Gene, 11, &"G".repeat(215), Some(200)),
         Facts::ann(Kind::Omim, 600_001, &format!("{} disease", "long ".repeat(60)), Some(200)),
         Facts::ann(Kind::Orpha, 77, &"\u{e9}".repeat(200), Some(200)),
         Facts::ann(Kind::Orpha, 78, &format!("{}\u{20ac}{}", "x".repeat(254), "y".repeat(40)), Some(118)),
@@ -550,13 +557,43 @@ fn compare_pair(ctx: &mut Ctx, a: &RefOnt, oa: &Ontology, b: &RefOnt, history: &
     }
 }
 
+/// What an ontology contains, read back through the read API: the model of "the ontology as it is", for pairs whose
+/// contents no fact set of this check fixes (text-loaded ontologies, sub-ontologies). None if the walk fails.
+fn model_of(ont: &Ontology) -> Option<RefOnt> {
+    crate::obs::Obs::of(ont).ok().map(|o| RefOnt::derive(&o.to_facts((0, 0, 0))))
+}
+
+/// Compare two ontologies in both argument orders against the diff of the two given models.
+fn compare_models(ctx: &mut Ctx, ma: &RefOnt, oa: &Ontology, mb: &RefOnt, ob: &Ontology, what: &str, case: &dyn Fn() -> Value) {
+    ctx.execs(2);
+    ctx.validateds(2);
+    ctx.transitions(2);
+    match guard(|| (observe(oa, ob), observe(ob, oa))) {
+        Err(p) => ctx.violation("Ontology::compare", &format!("[{what}] panics"), json!({"case": case(), "observed": p})),
+        Ok((fwd, bwd)) => {
+            if let Some((site, sig, det)) = first_difference(&fwd, &expected(ma, mb)) {
+                ctx.violation(&site, &format!("[{what}] {sig}"), json!({"case": case(), "direction": "old.compare(new)", "old": ma.to_facts().to_json(), "new": mb.to_facts().to_json(), "difference": det}));
+            } else if let Some((site, sig, det)) = first_difference(&bwd, &expected(mb, ma)) {
+                ctx.violation(&site, &format!("[{what}] [arguments swapped] {sig}"), json!({"case": case(), "direction": "new.compare(old)", "old": ma.to_facts().to_json(), "new": mb.to_facts().to_json(), "difference": det}));
+            }
+            ctx.outcome(crate::ctx::fnv_str(&format!("{fwd:?}")));
+        }
+    }
+}
+
+/// replacement targets exist in the ontology itself and in the other one (see the assumptions)
+fn replacements_resolve(a: &RefOnt, b: &RefOnt) -> bool {
+    a.terms.values().chain(b.terms.values()).all(|t| t.replacement.map_or(true, |r| a.terms.contains_key(&r) && b.terms.contains_key(&r)))
+}
+
 pub fn run(ctx: &mut Ctx) {
     let thorough = ctx.tier.thorough();
-    ctx.rule = "case = (base ontology, first edit) with every applicable second edit; all edit sequences of length 0, 1, 2 (thorough: 3) from every base; each reached fact set is compared with its base in both argument orders and with itself; reached fact sets are de-duplicated per base by canonical form; distinct by construction; non-trivial = pair differing in at least one fact".into();
+    ctx.rule = "case = (base ontology, first edit) with every applicable second edit; all edit sequences of length 0, 1, 2 (thorough: 3) from every base; each reached fact set is compared with its base in both argument orders and with itself; reached fact sets are de-duplicated per base by canonical form; further: pairs with an (almost) empty side, pairs loaded from text files and pairs of an ontology with its sub-ontologies (expected = diff of the observed contents); distinct by construction; non-trivial = pair differing in at least one fact".into();
     ctx.assumptions = vec![
         "replacement targets exist in both ontologies; HP:1 and HP:118 are never removed (from_bytes needs them)".into(),
         "ontologies are built from the independent v3 encoder (names <= 255 bytes)".into(),
         "the lists are compared as sets; their order is unspecified".into(),
+        "AnnotationDelta::id() is only read for the record's number: any run of digits in it that is the id of a record present in both ontologies identifies the record".into(),
     ];
     for (bi, (base, bname)) in bases().iter().enumerate() {
         let edits1 = applicable_edits(base);
@@ -674,6 +711,140 @@ pub fn run(ctx: &mut Ctx) {
                 compare_pair(ctx, &base, &oa, &cur, &|| json!(script.iter().map(|e| format!("{e:?}")).collect::<Vec<_>>()));
             }
             ctx.sample(|| json!({"script": script.iter().map(|e| format!("{e:?}")).collect::<Vec<_>>()}));
+        }
+    }
+    // ---- one side (almost) empty: an ontology without any term, and one without HP:1 / HP:118 whose few ids lie
+    // above, below and inside the other side's (a comparison that returns early for an empty side, or walks two
+    // sorted id lists and stops at the end of the shorter one, is exact on every pair of the edit spaces)
+    {
+        let empty = RefOnt::derive(&Facts::default());
+        let mut f = Facts::default();
+        f.terms = vec![Facts::term(7, "Seven"), Facts::term(9, "Nine"), Facts::term(9_999_999, "Last")];
+        f.edges = vec![(9, 7)];
+        f.anns = vec![Facts::ann(Kind::Gene, 1, "G1", Some(9)), Facts::ann(Kind::Gene, 2, "G2", None), Facts::ann(Kind::Omim, 1, "O1", Some(7)), Facts::ann(Kind::Orpha, 1, "R1", Some(9)), Facts::ann(Kind::Orpha, u32::MAX, "Rmax", Some(9_999_999))];
+        let small = RefOnt::derive(&f);
+        let all = bases();
+        ctx.space("one-side-small", &format!("the empty ontology (Ontology::default() and Builder-built) and a Builder-built ontology with the terms 7, 9, 9999999 and five records, without HP:1 and HP:118: each compared with the other, with itself and with each of the {} bases (decoded, and Builder-built where the base has no flags), both argument orders", all.len()));
+        let build_min = |r: &RefOnt| drive::build(&r.to_facts(), crate::model::Mode::Minimal);
+        if ctx.take() {
+            ctx.state();
+            ctx.nontrivial();
+            match (build_min(&empty), build_min(&small)) {
+                (Ok(oe), Ok(os)) => {
+                    let od = Ontology::default();
+                    for (ma, oa, mb, ob, what) in [(&empty, &od, &small, &os, "Ontology::default() / small"), (&empty, &oe, &small, &os, "Builder-built empty / small"), (&empty, &od, &empty, &oe, "Ontology::default() / Builder-built empty"), (&small, &os, &small, &os, "small / itself"), (&empty, &od, &empty, &od, "Ontology::default() / itself")] {
+                        compare_models(ctx, ma, oa, mb, ob, what, &|| json!({"pair": what}));
+                    }
+                }
+                (a, b) => ctx.violation("Builder", "[builder] construction fails on valid facts", json!({"observed": format!("{:?} {:?}", a.err(), b.err())})),
+            }
+            ctx.sample(|| json!({"pairs": "empty / small / themselves"}));
+        }
+        for (base, bname) in &all {
+            if !ctx.take() {
+                continue;
+            }
+            ctx.state();
+            ctx.nontrivial();
+            let mut others: Vec<(Ontology, &str)> = vec![];
+            if let Ok(o) = build(base) {
+                others.push((o, "decoded"));
+            }
+            if let Some(o) = build_via_builder(base) {
+                others.push((o, "Builder-built"));
+            }
+            if let (Ok(oe), Ok(os)) = (build_min(&empty), build_min(&small)) {
+                let od = Ontology::default();
+                for (ob, how) in &others {
+                    for (ma, oa, what) in [(&empty, &od, "Ontology::default()"), (&empty, &oe, "Builder-built empty ontology"), (&small, &os, "small ontology without HP:1 / HP:118")] {
+                        let label = format!("{what} / {how} base");
+                        compare_models(ctx, ma, oa, base, ob, &label, &|| json!({"base": bname}));
+                    }
+                }
+            }
+            ctx.sample(|| json!({"base": bname, "constructors": others.iter().map(|o| o.1).collect::<Vec<_>>()}));
+        }
+    }
+    // ---- pairs from the other constructors: both sides loaded from text files (the two loaders in turn), and an
+    // ontology against its own sub-ontologies. The expected differences are those of what the two ontologies
+    // CONTAIN (read back through the read API) - what a loader or sub_ontology should produce is not this property's
+    // question, what compare says about the pair is.
+    {
+        let all = bases();
+        ctx.space("pairs/text-loaded-and-sub-ontologies", &format!("each of the {} bases: (a) base and base + every 3rd single edit rendered as JAX text files (records without terms left out) and loaded by from_standard / from_standard_transitive in turn, old.compare(new) and new.compare(old); (b) the decoded base against sub_ontology(root 118 / 1, one leaf or the last two terms) and two such sub-ontologies against each other; expected = the diff of the two observed contents", all.len()));
+        for (base, bname) in &all {
+            if !ctx.take() {
+                continue;
+            }
+            ctx.state();
+            ctx.nontrivial();
+            let load = |r: &RefOnt, transitive: bool| -> Option<Ontology> {
+                let mut f = r.to_facts();
+                f.anns.retain(|a| a.term.is_some());
+                // (tab-free, non-empty names of moderate length only: what the text formats can carry)
+                if f.terms.iter().any(|t| t.name.is_empty() || t.name.len() > 200) || f.anns.iter().any(|a| a.name.is_empty() || a.name.len() > 200) {
+                    return None;
+                }
+                match crate::jax::load_with(&crate::jax::render(&f, &crate::jax::JaxOpts::default()), transitive, crate::jax::OtherGeneFile::Absent) {
+                    Ok(Ok(o)) => Some(o),
+                    _ => None,
+                }
+            };
+            let mut n_text = 0;
+            if let Some(oa) = load(base, false) {
+                if let Some(ma) = model_of(&oa) {
+                    for (i, e) in applicable_edits(base).iter().enumerate().filter(|(i, _)| i % 3 == 0) {
+                        // (a name that ends in a blank is not something a text file carries)
+                        if matches!(e, Edit::RenameTerm(_, 2) | Edit::RenameRecord(_, _, 2)) {
+                            continue;
+                        }
+                        let s1 = apply(base, e);
+                        let Some(ob) = load(&s1, i % 2 == 1) else { continue };
+                        let Some(mb) = model_of(&ob) else { continue };
+                        if !replacements_resolve(&ma, &mb) {
+                            continue;
+                        }
+                        n_text += 1;
+                        compare_models(ctx, &ma, &oa, &mb, &ob, "both ontologies loaded from text files", &|| json!({"base": bname, "edit": format!("{e:?}"), "new loaded by": if i % 2 == 1 { "from_standard_transitive" } else { "from_standard" }}));
+                    }
+                }
+            }
+            crate::jax::cleanup();
+            let mut n_sub = 0;
+            if let (Ok(oa), ids) = (build(base), base.terms.keys().copied().collect::<Vec<u32>>()) {
+                if let Some(ma) = model_of(&oa) {
+                    let mut subs: Vec<(Ontology, RefOnt, String)> = vec![];
+                    for root in [118u32, 1] {
+                        let mut leaf_sets: Vec<Vec<u32>> = ids.iter().map(|l| vec![*l]).collect();
+                        if ids.len() >= 2 {
+                            leaf_sets.push(ids[ids.len() - 2..].to_vec());
+                        }
+                        for leaves in leaf_sets {
+                            let res = guard(|| match (oa.hpo(root), leaves.iter().map(|l| oa.hpo(*l)).collect::<Option<Vec<_>>>()) {
+                                (Some(r), Some(ls)) => oa.sub_ontology(r, ls).ok(),
+                                _ => None,
+                            });
+                            if let Ok(Some(sub)) = res {
+                                if let Some(ms) = model_of(&sub) {
+                                    if replacements_resolve(&ma, &ms) {
+                                        n_sub += 1;
+                                        compare_models(ctx, &ma, &oa, &ms, &sub, "an ontology and its sub-ontology", &|| json!({"base": bname, "root": root, "leaves": leaves}));
+                                        subs.push((sub, ms, format!("root {root} leaves {leaves:?}")));
+                                    }
+                                }
+                            }
+                        }
+                    }
+                    for w in subs.windows(2) {
+                        if replacements_resolve(&w[0].1, &w[1].1) {
+                            compare_models(ctx, &w[0].1, &w[0].0, &w[1].1, &w[1].0, "two sub-ontologies of one ontology", &|| json!({"base": bname, "old": w[0].2, "new": w[1].2}));
+                        }
+                    }
+                }
+            }
+            ctx.bump("pairs_loaded_from_text", n_text);
+            ctx.bump("pairs_with_a_sub_ontology", n_sub);
+            ctx.sample(|| json!({"base": bname, "text pairs": n_text, "sub-ontology pairs": n_sub}));
         }
     }
     // ---- (last) ontologies beyond 65 536 terms: self-comparison and single edits
